@@ -35,7 +35,11 @@ def main():
             ctx.extra["leanchecker"] = lc
             if lc["exit"] != 0:
                 pf.append("leanchecker rejected " + " ".join(lc["modules"]) + ": " + lc["output_tail"][-200:])
-        mod.run(ctx)
+        cov = core.start_source_coverage(prop, tier)
+        try:
+            mod.run(ctx)
+        finally:
+            core.stop_source_coverage(cov, ctx, prop)
         return core.finish(ctx, obligations, discharged, axioms, pf, build_s,
                            BASE_TRUST + getattr(mod, "TRUST", []), getattr(mod, "search", None))
     except core.Infra as e:
